@@ -328,18 +328,42 @@ def retime(d, rng, mode):
     return canon(out)
 
 
-def sim_dict(rng, n=None, trees="multi", big=False):
+def reattach_family(rng):
+    """hand-built family: node u = (0,1) hangs under the root R on [0,a) and on [b,L) and under another
+    parent A on [a,b) (a recombinant lineage re-attaching to the grand MRCA), so u has TWO edges from R;
+    R is the oldest node and has the highest id.  Optionally extra samples under u / R."""
+    L = float(rng.choice([10, 30, 100]))
+    a = float(rng.randint(1, int(L) // 2 - 1)) if L > 4 else 1.0
+    b = float(rng.randint(int(L) // 2 + 1, int(L) - 1))
+    extra_u = rng.randint(0, 1)          # a third sample under u
+    ns = 4 + extra_u
+    u, A, R = ns, ns + 1, ns + 2
+    times = [0.0] * ns + [round(0.5 + rng.random(), 3), round(2 + rng.random(), 3), round(4 + rng.random(), 3)]
+    edges = [[0.0, L, u, 0], [0.0, L, u, 1], [a, b, A, u], [a, b, A, 2], [0.0, a, R, u], [b, L, R, u],
+             [0.0, a, R, 2], [b, L, R, 2], [a, b, R, A], [0.0, L, R, 3]]
+    if extra_u:
+        edges.append([0.0, L, u, 4])
+    d = {"L": L, "nodes_time": times, "nodes_flags": [1] * ns + [0, 0, 0], "edges": edges, "sites": [], "mutations": []}
+    d = canon(d)
+    return canon(add_mutations(d, [rng.choice([0, 0, 1, 1, 2, 3]) for _ in d["edges"]], rng))
+
+
+def sim_dict(rng, n=None, trees="multi", big=False, rec_boost=False):
     """small msprime tree sequence (contemporaneous samples) as a dict"""
     from vlib import gen
     n = n or rng.randint(2, 6)
     for _ in range(50):
         L = rng.choice([4, 10, 50])
         rec = 0.0 if trees == "single" else rng.choice([0.5, 2.0, 6.0]) / L
+        if rec_boost:
+            L = 50
+            rec = rng.choice([8.0, 15.0, 25.0]) / L
         ts = gen.sim_ts(rng, n=n, L=L, rec=rec, mu=rng.choice([0.3, 1.0, 3.0]) / L, historical=False,
                         multimerger=rng.random() < 0.3)
         # multiple-merger models can give huge times / thousands of mutations, which only makes the
         # linear space underflow: keep the inputs moderate
-        if (ts.num_mutations <= 60 and ts.num_nodes <= 18) or (big and ts.num_mutations <= 400 and ts.num_nodes <= 120):
+        if (ts.num_mutations <= 60 and ts.num_nodes <= 18) or (big and ts.num_mutations <= 400 and ts.num_nodes <= 120) \
+                or (rec_boost and ts.num_mutations <= 80 and ts.num_nodes <= 32):
             break
     return ts_to_dict(ts)
 
